@@ -32,7 +32,10 @@ class CsvReader(Filter[Iterable[str], Iterable[MutableSequence]]):
         #csv.reader wants each line to end with its newline (so that a quoted field can span several lines) and leading
         #or trailing blanks belong to the field they are in. Blank lines are parsed as [] by csv.reader and then dropped.
         lines = iter(filter(None,csv.reader((i.rstrip('\r\n')+'\n' for i in items), **self._dialect)))
-        first = next(lines)
+        first = next(lines,None)
+
+        #no lines at all (or only blank ones) is a table without any rows
+        if first is None: return []
 
         if self._has_header:
             return HeadRows(first).filter(lines)
